@@ -81,7 +81,7 @@ func Prop() *core.Prop {
 		},
 		Cases: func(tier string) int {
 			if tier == "thorough" {
-				return 30000
+				return 20000
 			}
 			return 500
 		},
